@@ -265,7 +265,8 @@ pub(crate) fn run(cx: &mut Ctx) {
                     Err(e) => cx.oracle_fail("flush-error", "wrapper flush failed on a healthy store", "ok", &format!("{e:?}"), None),
                 }
             }
-            "wcrash" if t.len() == 2 => {
+            "wcrash" | "wcrashi" if t.len() == 2 => {
+                let idem = t[0] == "wcrashi";
                 let Ok(cut) = t[1].parse::<i64>() else { continue };
                 ww.store.arm(cut.max(0));
                 let r = cx.rt.block_on(ww.hnsw.flush(ww.now));
@@ -291,12 +292,14 @@ pub(crate) fn run(cx: &mut Ctx) {
                         return;
                     }
                 };
+                let mut loaded_graph: Option<Graph> = None;
                 let loaded_len = match load(cx.rt, &d) {
                     Ok(ix) => {
                         let mut lw = World::from_loaded(ww.cfg.clone(), ix, d.clone());
                         lw.explicit = false;
                         lw.universe = ww.universe.clone();
                         check_loaded(cx, &mut lw, &d);
+                        loaded_graph = Some(lw.extract(cx.rt).0);
                         Some(lw.index.len())
                     }
                     Err(e) => {
@@ -340,6 +343,20 @@ pub(crate) fn run(cx: &mut Ctx) {
                         let touched: Vec<u64> = ww.touched.iter().copied().collect();
                         for id in touched {
                             ww.now += 1;
+                            // idempotent variant: a document the loaded index already holds with its current vector is only
+                            // re-offered (AlreadyExists tolerated) — the insert path that clears a tombstone does not run
+                            let same = idem
+                                && loaded_graph.as_ref().and_then(|g| g.get(&id)).is_some_and(|n| ww.live.get(&id).is_some_and(|v| n.vec.iter().map(|x| x.to_f32()).collect::<Vec<f32>>() == *v));
+                            if same {
+                                let vb = ww.live[&id].iter().map(|x| anda_db_hnsw::half::bf16::from_f32(*x)).collect();
+                                if ww.hnsw.insert(id, vb, ww.now).is_ok() {
+                                    cx.oracle_fail("reindex-insert", "insert of an id the bootstrapped index holds was accepted", "AlreadyExists", "ok", None);
+                                }
+                                if cx.report {
+                                    cx.rep.hit("wcrashi:already-exists");
+                                }
+                                continue;
+                            }
                             ww.hnsw.remove(id, ww.now);
                             if let Some(v) = ww.live.get(&id) {
                                 let vb = v.iter().map(|x| anda_db_hnsw::half::bf16::from_f32(*x)).collect();
